@@ -112,11 +112,9 @@ let () =
     let words = if toks.(i + 4) = "-" then [] else List.map n_of_string (String.split_on_char ',' toks.(i + 4)) in
     { f_size = n_of_string toks.(i); f_start = n_of_string toks.(i + 1);
       f_frag_idx = n_of_string toks.(i + 2); f_frag_off = n_of_string toks.(i + 3); f_blocks = words } in
-  let stream_unsafe f = List.exists (fun w -> int_of_n (on_disk w) > bs_i) f.f_blocks in
-  let frag_unsafe f =
-    (* (u64)frag_off + size % block_size > 0xFFFFFFFF *)
-    let (_, r) = N.div_eucl f.f_size bs in
-    N.ltb (n_of_string "4294967295") (N.add f.f_frag_off r) in
+  (* F12/F13 are repaired in /repo and modelled: nothing is skipped any more *)
+  let stream_unsafe (_ : finode) = false in
+  let frag_unsafe (_ : finode) = false in
   let hash_init = 2166136261 in
   let hash_add h l = List.fold_left (fun h x -> ((h lxor (int_of_n x)) * 16777619) land 0xFFFFFFFF) h l in
   (* stream_pull of the harness: read up to want bytes in pieces of chunk; returns text and error flag *)
